@@ -135,10 +135,13 @@ func genQp3(g *vlib.G) {
 	N := vlib.Pick(g, 12, 14)
 	nbs := vlib.Pick(g, []int{2, 3, 4}, []int{2, 3, 4, 5})
 	nxs := []int{0, 4}
-	fams := generalFams(N, false)
+	fams := generalFams(N, true)
 	for m := 0; m <= N; m++ {
 		for n := 0; n <= N; n++ {
 			for _, f := range fams {
+				if j, ok := posFam(f.name); ok && j >= n {
+					continue
+				}
 				for _, pat := range []string{"free", "mixed", "fixed"} {
 					if pat != "free" && !(f.name == "dd" || f.name == "rank1" || f.name == "sparse") {
 						continue
